@@ -236,7 +236,15 @@ class ObjOps(ToolOps):
             c = self._class_attr(clsfq, name)
             if c != ("@missing",):
                 return c
-            if self._method(clsfq, name) is not None:
+            m = self._method(clsfq, name)
+            if m is not None and m.is_property():
+                # a read-only property whose body is one ``return <expression>``: that expression about this object
+                body = [b for b in m.node.body if not (isinstance(b, ast.Expr) and isinstance(b.value, ast.Constant))]
+                if len(body) == 1 and isinstance(body[0], ast.Return) and body[0].value is not None and m.param_names() \
+                        and not any(isinstance(y, (ast.Call, ast.Await, ast.NamedExpr)) for y in ast.walk(body[0].value)):
+                    return self.ev.eval(body[0].value, {**{k: v for k, v in env.items() if k.startswith("@")}, m.param_names()[0]: value})
+                return UNKNOWN
+            if m is not None:
                 return ("BOUND", value, name)
             return UNKNOWN
         return super().attr(value, name, node, env)
@@ -530,7 +538,7 @@ class ObjOps(ToolOps):
             if isinstance(fv, tuple) and fv[:1] == ("GLOBAL",) and not any(isinstance(a, ast.Starred) for a in call.args):
                 r = self.ctx.pkg.resolve_global(self.module, fv[1])
                 info = self.ctx.pkg.lib_class(r.qual) if r.kind == "lib" else None
-                if info is not None and self._wrapper_class(fv[1]) is None \
+                if info is not None and self._wrapper_class(fv[1]) is None and not self._repeat_class(info) \
                         and self.ctx.pkg.canonical_class(info) not in ("_core.ScopedIter",):  # (a primitive of the model)
                     obj = self._alloc(env, info.fq)
                     init = self._method(info.fq, "__init__")
